@@ -18,7 +18,7 @@ RULE = ("Hypothesis-generated expression DAGs (<=10 nodes, earlier nodes reusabl
         "be both pipeline root and argument) over two int rx roots, a str root, a list root, two Parameters of one object, a "
         "third Parameter of another object and a bind of two Parameters; node kinds: every binary operator in the three "
         "orientations node.const / const.node / node.node (+ - * / // % ** << >> & | ^ @ divmod == != < <= > >=), unary (- + ~ "
-        "abs round), [] with constant or reactive index, method and attribute access on the value, and the .rx helpers pipe, "
+        "abs round), [] with constant or reactive index or a slice whose parts may be reactive, method and attribute access on the value, and the .rx helpers pipe, "
         "where, and_, or_, not_, bool, len, in_, is_, is_not, map; histories (<=10 steps) of root / parameter updates, batches "
         "and reads (reads populate caches) with .rx.watch callbacks on some nodes; the tail of the DAG may be derived in mid-history (after reads and updates of the nodes it builds on); the bind input takes its arguments positionally, or by keyword as Parameters / rx / bound functions; the guard pattern where(d != 0, n // d, c) is generated on purpose; plus a complete sweep of the operator table "
         "(operator x orientation x operand type); oracle = mirror evaluator (value and exact type, or exception class; recovery "
@@ -31,7 +31,8 @@ ASSUMPTIONS = [
 ]
 SIZES = {"quick": 1500, "thorough": 10000}
 EXHAUSTIVE_NOTE = ("operator table: every binary operator x {node.const, const.node, node.node} x operand values, every unary "
-                   "operator; argument table: pipeline root kind x form of the other operand x read/update/read histories")
+                   "operator (incl. reflected sequence concatenation); slice table: reactive start / stop / step in turn x read/update/read; "
+                   "argument table: pipeline root kind x form of the other operand x read/update/read histories")
 
 
 class Mat:
@@ -197,7 +198,7 @@ def _dag(draw):
                 nodes.append((["in_", a, ["a", "ab", ""]], "bool"))
         elif k == "listop":
             a = draw(st.sampled_from(of("list")))
-            h = draw(st.sampled_from(["len", "getitem", "getitem_node", "radd", "count", "add"]))
+            h = draw(st.sampled_from(["len", "getitem", "getitem_node", "radd", "count", "add", "slice", "slice", "slice_step"]))
             if h == "len":
                 nodes.append((["len", a], "small"))
             elif h == "getitem":
@@ -206,6 +207,18 @@ def _dag(draw):
                 nodes.append((["getitem", a, ["n", draw(st.sampled_from(of("small", "int")))]], "int"))
             elif h == "radd":
                 nodes.append((["bin", "+", ["c", [9]], ["n", a]], "list"))
+            elif h == "slice_step" and of("small"):
+                nodes.append((["getslice", a, None, None, ["n", draw(st.sampled_from(of("small")))]], "list"))     # data[::k]
+            elif h == "slice":
+                # a slice whose start / stop / step may each be absent, a constant or another node (data[::k], data[i:], ...)
+                def part(cands):
+                    smalls = of("small")
+                    opts = [st.none(), st.sampled_from(cands).map(lambda c: ["c", c])]
+                    if smalls:
+                        opts.append(st.sampled_from(smalls).map(lambda j: ["n", j]))
+                        opts.append(st.sampled_from(smalls).map(lambda j: ["n", j]))
+                    return draw(st.one_of(*opts))
+                nodes.append((["getslice", a, part([0, 1, -1]), part([1, 2, 3, -1]), part([1, 2, -1, 0])], "list"))
             elif h == "count":
                 nodes.append((["method", a, "count", [0]], "small"))
             else:
@@ -231,6 +244,8 @@ def _refs(spec):
         return [spec[2]]
     if k == "getitem":
         return [spec[1]] + ([spec[2][1]] if spec[2][0] == "n" else [])
+    if k == "getslice":
+        return [spec[1]] + [o[1] for o in spec[2:5] if o is not None and o[0] == "n"]
     if k in ("and_", "or_"):
         return [spec[1], spec[2]]
     if k == "where":
@@ -262,7 +277,17 @@ def _case(draw):
     case = {"dag": dag, "inputs": inputs, "watch": draw(st.lists(st.integers(0, n - 1), max_size=2, unique=True)),
             "steps": flat,
             # how the bind input (slot 7) receives its two arguments
-            "bind_form": draw(st.sampled_from(["pos", "kw_param", "kw_rx", "kw_bound"]))}
+            "bind_form": draw(st.sampled_from(["pos", "kw_param", "kw_rx", "kw_bound"])),
+            # the list input (slot 3) is an rx root, or a List parameter of an object (which can also change in place:
+            # append + param.trigger, the documented way)
+            "list_input": draw(st.sampled_from(["rx", "param", "param"]))}
+    if case["list_input"] == "param" and any(sp[0] == "root" and sp[1] == 3 for sp in dag):
+        for _ in range(draw(st.integers(0, 2))):
+            flat.insert(draw(st.integers(0, len(flat))), ["mutate3", draw(st.integers(-3, 3))])
+        if draw(st.booleans()):
+            # ... and one of the watched nodes is the list input itself (the callback receives the very object that changes)
+            first = [i for i, sp in enumerate(dag) if sp[0] == "root" and sp[1] == 3][0]
+            case["watch"] = sorted(set(case["watch"][:1] + [first]))
     if n >= 3 and draw(st.booleans()):
         # the last nodes of the DAG are derived later, in the middle of the history (from nodes whose caches may be stale)
         lf = case["late_from"] = draw(st.integers(1, n - 1))
@@ -312,6 +337,23 @@ def enumerate_cases(tier):
                        "steps": [["read", 1]]}
         yield {"dag": [["root", root], ["bin", "*", ["c", 2], ["n", 0]]], "inputs": [1, 2, "ab", [1, 2], 1, 2, 3], "watch": [],
                "steps": [["read", 1]]}
+    # slice table: each part of a slice (start / stop / step) reactive in turn, the other parts absent or constant;
+    # read, change the input behind the reactive part, read again
+    for pos in range(3):
+        for others in ((None, None), (["c", 1], None), (None, ["c", 3]), (["c", 0], ["c", -1])):
+            parts = list(others)
+            parts.insert(pos, ["n", 2])
+            if pos == 2:
+                parts = [others[0], others[1], ["n", 2]]
+            elif pos == 0:
+                parts = [["n", 2], others[0], others[1] if others[1] != ["c", -1] else ["c", 2]]
+            else:
+                parts = [others[0], ["n", 2], others[1] if others[1] != ["c", -1] else ["c", 2]]
+            dag = [["root", 3], ["root", 0], ["bin", "%", ["n", 1], ["c", 4]], ["getslice", 0] + parts]
+            steps = [["read", 3]]
+            for v in (3, 1, 2, 0, 5):
+                steps += [["set", 0, v], ["read", 3]]
+            yield {"dag": dag, "inputs": [2, 1, "a", [1, 2, 3, 4, 5], 1, 2, 3], "watch": [3], "steps": steps}
     # argument table: pipeline root x form of the other operand (another rx root, a raw Parameter of the same / another
     # object, an rx over a Parameter of the same object) x which side is updated between two reads
     hist = [["read", -1], ["set", "ARG", 9], ["read", -1], ["set", "ROOT", 4], ["read", -1], ["batch", 5, 6], ["read", -1],
@@ -346,7 +388,10 @@ def execute(case):
     res = Result()
     dag = case["dag"]
     vals = list(case["inputs"])             # current plain values of input slots 0..6
-    roots = [param.rx(vals[0]), param.rx(vals[1]), param.rx(vals[2]), param.rx(list(vals[3]))]
+    L = type("L", (param.Parameterized,), {"items": param.List(default=[])})
+    lobj = L(items=list(vals[3]))
+    list_param = case.get("list_input") == "param"
+    roots = [param.rx(vals[0]), param.rx(vals[1]), param.rx(vals[2]), lobj.param.items.rx() if list_param else param.rx(list(vals[3]))]
     P = type("P", (param.Parameterized,), {"a": param.Integer(default=0), "b": param.Integer(default=0)})
     Q = type("Q", (param.Parameterized,), {"c": param.Integer(default=0)})
     p, q = P(a=vals[4], b=vals[5]), Q(c=vals[6])
@@ -413,6 +458,10 @@ def execute(case):
                 elif k == "getitem":
                     used[spec[1]] = used.get(spec[1], 0) + 1
                     node = rxn[spec[1]][rx_operand(spec[2])]
+                elif k == "getslice":
+                    used[spec[1]] = used.get(spec[1], 0) + 1
+                    node = rxn[spec[1]][slice(*[None if o is None else rx_operand(o) for o in spec[2:5]])]
+                    marks.add("slice_index")
                 elif k == "method":
                     used[spec[1]] = used.get(spec[1], 0) + 1
                     node = getattr(rxn[spec[1]], spec[2])(*spec[3])
@@ -550,10 +599,19 @@ def execute(case):
             for w in watch_log.values():
                 del w[:]
             try:
-                if k == "set":
+                if k == "mutate3":
+                    if not list_param:
+                        continue
+                    vals[3] = list(vals[3]) + [step[1]]
+                    lobj.items.append(step[1])          # in place ...
+                    lobj.param.trigger("items")         # ... and announced
+                    marks.add("list_input_changed_in_place")
+                elif k == "set":
                     i, v = step[1], step[2]
                     vals[i] = v
-                    if i < 4:
+                    if i == 3 and list_param:
+                        lobj.items = list(v)
+                    elif i < 4:
                         roots[i].rx.value = list(v) if isinstance(v, list) else v
                     elif i == 4:
                         p.a = v
@@ -641,6 +699,8 @@ def _plain_all(dag, input_plain):
                 v = (m @ Mat(spec[3])) if spec[1] == "nc" else (Mat(spec[3]) @ m)
             elif k == "getitem":
                 v = node(spec[1])[operand(spec[2])]
+            elif k == "getslice":
+                v = node(spec[1])[slice(*[None if o is None else operand(o) for o in spec[2:5]])]
             elif k == "method":
                 v = getattr(node(spec[1]), spec[2])(*spec[3])
             elif k == "len":
